@@ -1,6 +1,7 @@
 import Pyunicorn.Lemmas.RandomB
 /-! Helper lemmas for C17, Barabasi-Albert growth loop (core Lean only). -/
 namespace Pyunicorn.Random
+open Pyunicorn.Generated.ArithC17
 
 theorem rsum_interval (m n : Nat) :
     rsum (fun b => if 1 ≤ b ∧ b < 1 + m then (1 : Int) else 0) n
@@ -14,14 +15,15 @@ theorem rsum_interval (m n : Nat) :
 /-- the accepted branch of `baStep`, before the end-of-round bookkeeping -/
 def baLink (st : BASt) (i : Nat) : BASt :=
   { st with A := (st.A.set i st.j true).set st.j i true
-            targets := st.targets.set (st.nTargets + st.it) i
+            targets := st.targets.set (baStoreIdx st.nTargets st.it).toNat i
             lastChild := fun x => if x = i then st.j else st.lastChild x
             it := st.it + 1 }
 
 def baWrap (m : Nat) (st : BASt) (st1 : BASt) : BASt :=
   { st1 with
-    targets := (List.range m).foldl (fun ts q => ts.set (st.nTargets + m + q) st.j) st1.targets
-    nTargets := st.nTargets + 2 * m
+    targets := (List.range (baFillHi st.nTargets m - baFillLo st.nTargets m).toNat).foldl
+      (fun ts q => ts.set ((baFillLo st.nTargets m).toNat + q) st.j) st1.targets
+    nTargets := (baNTargetsNext st.nTargets m).toNat
     j := st.j + 1
     it := 0 }
 
@@ -57,6 +59,10 @@ structure BAInv (N m : Nat) (st : BASt) : Prop where
   tg : ∀ x ∈ st.targets, x < st.j
   cnt : total st.A N N = 2 * ((m * (st.j - m) + st.it : Nat) : Int)
   fin : st.it = 0 ∨ st.j < N
+  /-- `n_targets = 2 m (j − m)`, `len(targets) = 2 m (N − m)`, `j ≤ N` -/
+  nT : st.nTargets = 2 * m * (st.j - m)
+  len : st.targets.length = 2 * m * (N - m)
+  jN : st.j ≤ N
 
 theorem mem_foldl_set (qs : List Nat) (base v : Nat) (ts : List Nat) (x : Nat)
     (h : x ∈ qs.foldl (fun ts q => ts.set (base + q) v) ts) : x ∈ ts ∨ x = v := by
@@ -68,15 +74,25 @@ theorem mem_foldl_set (qs : List Nat) (base v : Nat) (ts : List Nat) (x : Nat)
     · exact List.mem_or_eq_of_mem_set h1
     · right; exact h1
 
+theorem length_foldl_set (qs : List Nat) (base v : Nat) (ts : List Nat) :
+    (qs.foldl (fun ts q => ts.set (base + q) v) ts).length = ts.length := by
+  induction qs generalizing ts with
+  | nil => rfl
+  | cons q qs ih => simp only [List.foldl_cons]; rw [ih]; simp
+
+/-- `2 m (a + 1) = 2 m a + 2 m` and monotonicity, the only nonlinear facts needed -/
+theorem two_mul_succ (m a : Nat) : 2 * m * (a + 1) = 2 * m * a + 2 * m := Nat.mul_succ _ _
+theorem two_mul_mono (m a b : Nat) (h : a ≤ b) : 2 * m * a ≤ 2 * m * b := Nat.mul_le_mul_left _ h
+
 theorem baInv_link (N m : Nat) (st : BASt) (i : Nat) (inv : BAInv N m st)
     (hjN : st.j < N) (hi : i ∈ st.targets) (hlc : st.lastChild i ≠ st.j) :
     BAInv N m (baLink st i) := by
-  obtain ⟨sym, lf, hj, supp, lc, child, tg, cnt, fin⟩ := inv
+  obtain ⟨sym, lf, hj, supp, lc, child, tg, cnt, fin, nT, len, jN⟩ := inv
   have hij : i < st.j := tg i hi
   have hA : st.A i st.j = false := by
     have := child i; simp only [hlc, iff_false, Bool.not_eq_true] at this; exact this
   have hA' : st.A st.j i = false := by rw [sym]; exact hA
-  refine ⟨?_, ?_, hj, ?_, ?_, ?_, ?_, ?_, Or.inr hjN⟩
+  refine ⟨?_, ?_, hj, ?_, ?_, ?_, ?_, ?_, Or.inr hjN, nT, ?_, jN⟩
   · intro a b; simp only [baLink, Adj.set]; have := sym a b; grind
   · intro a; simp only [baLink, Adj.set]; have := lf a; grind
   · intro a b; simp only [baLink, Adj.set]; have := supp a b; grind
@@ -94,11 +110,13 @@ theorem baInv_link (N m : Nat) (st : BASt) (i : Nat) (inv : BAInv N m st)
     have : i < N := by omega
     simp [*]
     omega
+  · simp only [baLink, List.length_set]; exact len
 
 theorem baInv_wrap (N m : Nat) (st st1 : BASt) (inv : BAInv N m st1) (hj : st1.j = st.j)
+    (hnT : st1.nTargets = st.nTargets) (hjN : st.j < N)
     (hit : st1.it = m) : BAInv N m (baWrap m st st1) := by
-  obtain ⟨sym, lf, hj', supp, lc, child, tg, cnt, fin⟩ := inv
-  refine ⟨sym, lf, by simp only [baWrap]; omega, ?_, ?_, ?_, ?_, ?_, Or.inl rfl⟩
+  obtain ⟨sym, lf, hj', supp, lc, child, tg, cnt, fin, nT, len, jN⟩ := inv
+  refine ⟨sym, lf, by simp only [baWrap]; omega, ?_, ?_, ?_, ?_, ?_, Or.inl rfl, ?_, ?_, ?_⟩
   · intro a b h; have := supp a b h; simp only [baWrap]; omega
   · intro x; have := lc x; simp only [baWrap]; omega
   · intro x
@@ -116,14 +134,41 @@ theorem baInv_wrap (N m : Nat) (st st1 : BASt) (inv : BAInv N m st1) (hj : st1.j
     have : st.j + 1 - m = (st.j - m) + 1 := by omega
     rw [this, Nat.mul_succ]
     simp
+  · simp only [baWrap, baNTargetsNext]
+    have e : st.j + 1 - m = (st.j - m) + 1 := by omega
+    rw [e, two_mul_succ, ← hj, ← nT, hnT]
+    omega
+  · simp only [baWrap]; rw [length_foldl_set]; exact len
+  · simp only [baWrap]; omega
 
 theorem baStep_inv (N m : Nat) (st st' : BASt) (idx : Nat) (h : baStep N m st idx = some st')
     (inv : BAInv N m st) : BAInv N m st' := by
   rcases baStep_cases N m st st' idx h with rfl | ⟨i, hjN, hit, hi, hlc, ⟨_, rfl⟩ | ⟨hw, rfl⟩⟩
   · exact inv
   · exact baInv_link N m st i inv hjN hi hlc
-  · exact baInv_wrap N m st _ (baInv_link N m st i inv hjN hi hlc) rfl (by simp [baLink, hw])
+  · exact baInv_wrap N m st _ (baInv_link N m st i inv hjN hi hlc) rfl rfl hjN (by simp [baLink, hw])
 
+/-- **no IndexError**: in a state satisfying the invariant every index the loop body uses is
+valid — `targets[idx]` for every `idx < n_targets` (what `int(uniform(0, n_targets))` can
+return) and the store `targets[n_targets + it] = i`. -/
+theorem baStep_defined (N m : Nat) (st : BASt) (idx : Nat) (inv : BAInv N m st)
+    (hidx : idx < st.nTargets) : ∃ st', baStep N m st idx = some st' := by
+  obtain ⟨-, -, hj, -, -, -, -, -, -, nT, len, jN⟩ := inv
+  unfold baStep
+  split
+  · rename_i hg
+    have hle : 2 * m * (st.j - m + 1) ≤ 2 * m * (N - m) := two_mul_mono m _ _ (by omega)
+    rw [two_mul_succ] at hle
+    have h1 : idx < st.targets.length := by omega
+    rw [List.getElem?_eq_getElem h1]
+    simp only
+    split
+    · have h2 : (baStoreIdx st.nTargets st.it).toNat < st.targets.length := by
+        simp only [baStoreIdx]; omega
+      rw [if_pos h2]
+      split <;> exact ⟨_, rfl⟩
+    · exact ⟨_, rfl⟩
+  · exact ⟨_, rfl⟩
 
 theorem baInit_total (N m : Nat) (hN : m + 1 ≤ N) : total (baInit N m).A N N = 2 * (m : Int) := by
   unfold total
@@ -136,14 +181,14 @@ theorem baInit_total (N m : Nat) (hN : m + 1 ≤ N) : total (baInit N m).A N N =
       have : rsum (fun j => b2i ((baInit N m).A 0 j)) N
           = rsum (fun b => if 1 ≤ b ∧ b < 1 + m then (1 : Int) else 0) N := by
         apply rsum_congr; intro j hj
-        simp only [baInit, b2i]
+        simp only [baInit, b2i, baStarLo, baStarHi]
         grind
       rw [this, rsum_interval]
       split <;> simp <;> omega
     · have : rsum (fun j => b2i ((baInit N m).A a j)) N
           = rsum (fun b => if b = 0 then (if 1 ≤ a ∧ a < 1 + m then (1 : Int) else 0) else 0) N := by
         apply rsum_congr; intro j hj
-        simp only [baInit, b2i]
+        simp only [baInit, b2i, baStarLo, baStarHi]
         grind
       rw [this, rsum_single]
       have : 0 < N := by omega
@@ -153,18 +198,33 @@ theorem baInit_total (N m : Nat) (hN : m + 1 ≤ N) : total (baInit N m).A N N =
   split <;> split <;> omega
 
 theorem baInit_inv (N m : Nat) (hN : m + 1 ≤ N) : BAInv N m (baInit N m) := by
-  refine ⟨?_, ?_, ?_, ?_, ?_, ?_, ?_, ?_, Or.inl rfl⟩
-  · intro a b; simp only [baInit]; grind
-  · intro a; simp only [baInit]; grind
-  · simp [baInit]; omega
-  · intro a b; simp only [baInit]; grind
+  refine ⟨?_, ?_, ?_, ?_, ?_, ?_, ?_, ?_, Or.inl rfl, ?_, ?_, ?_⟩
+  · intro a b; simp only [baInit, baStarLo, baStarHi]; grind
+  · intro a; simp only [baInit, baStarLo, baStarHi]; grind
+  · simp [baInit, baFirstNew]; omega
+  · intro a b; simp only [baInit, baStarLo, baStarHi, baFirstNew]; grind
   · intro x; simp [baInit]
-  · intro x; simp only [baInit]; grind
+  · intro x; simp only [baInit, baStarLo, baStarHi, baFirstNew]; grind
   · intro x hx
-    simp only [baInit, List.mem_append, List.mem_replicate, List.mem_map, List.mem_range] at hx ⊢
-    grind
+    simp only [baInit, List.mem_map, List.mem_range] at hx ⊢
+    obtain ⟨p, -, rfl⟩ := hx
+    by_cases hc : baInitLo (m : Int) ≤ (p : Int) ∧ (p : Int) < baInitHi (m : Int)
+    · rw [if_pos hc]; simp only [baInitLo, baInitHi, baFirstNew] at hc ⊢; omega
+    · rw [if_neg hc]; simp only [baFirstNew]; omega
   · rw [baInit_total N m hN]
-    simp [baInit]
+    have e : ((1 : Int) + (m : Int)).toNat - m = 1 := by omega
+    simp only [baInit, baFirstNew, e]
+    omega
+  · simp only [baInit, baNTargets0, baFirstNew]
+    have : ((1 : Int) + (m : Int)).toNat - m = 1 := by omega
+    rw [this]; omega
+  · simp only [baInit, List.length_map, List.length_range, baTargetsLen]
+    have h : ((N - m : Nat) : Int) = (N : Int) - (m : Int) := by omega
+    rw [← h]
+    have : (2 : Int) * (m : Int) * ((N - m : Nat) : Int) = ((2 * m * (N - m) : Nat) : Int) := by
+      simp
+    rw [this]; exact Int.toNat_natCast _
+  · simp only [baInit, baFirstNew]; omega
 
 
 end Pyunicorn.Random
